@@ -24,6 +24,10 @@ HOSTS = {
     'line-num': ('[assert]\ncontents -rel-home one.txt : any line : line-num ( %s )\n',
                  {'T': '>= 1', 'F': '< 1'}, {}),
 }
+# a primitive whose argument is an expression itself (an INTEGER-MATCHER): the argument may begin on the next line
+for _h, _name in (('text', 'num-lines'), ('files', 'num-files'), ('line', 'line-num')):
+    HOSTS[_h + '+split'] = (HOSTS[_h][0], {k: v.replace(_name + ' ', _name + '\n    ') for k, v in HOSTS[_h][1].items()}, {})
+SPLIT_HOSTS = [h for h in HOSTS if h.endswith('+split')]
 # quantifier hosts: "Q" is a quantifier over a collection of exactly ONE element (one line / one file)
 _CONST = {'T': 'constant true', 'F': 'constant false'}
 for _n, _tmpl, _q in (('text/any line', '[assert]\ncontents -rel-home one.txt : %s\n', 'any line :'),
@@ -155,6 +159,10 @@ def run(ctx):
     with ctx.pool() as pool:
         for host in HOSTS:
             if host in QUANT_HOSTS or host == 'text+transformed-by':
+                continue
+            if host in SPLIT_HOSTS:
+                run_host(ctx, pool, host, trees if not quick else rnd.sample(trees, min(len(trees), 1000)),
+                         'trees <= %d postfix tokens x layouts, primitives over two lines' % lt)
                 continue
             mal = (malformed if host == 'integer' and not quick else
                    rnd.sample(malformed, min(len(malformed), (8000 if host == 'integer' else 1500) if quick else 40000)))
